@@ -154,6 +154,8 @@ def run(ctx):
     # correspondence: model compare on the dumped structures == Go Compare
     mo = ctx.model("svm_cmp", model_args)
     ctx.count("corr:svm_cmp", len(model_args))
+    step = max(1, len(model_args) // 80)
+    lib.kernel_crosscheck(ctx, [("svm_cmp", model_args[i], mo[i]) for i in range(0, len(model_args), step)])
     nd = 0
     for (name, a, b, c), line in zip(expect, mo):
         if line != '("ok" %d)' % c:
